@@ -335,4 +335,4 @@ class _IpCases:
         return _ip_cases(self.stride, self.offset)
 
 
-REQUIRED_CLASSES = {"k=counter": 0.0001, "k=udec": 0.0001}
+REQUIRED_CLASSES = {"k=counter": 0.0001, "k=udec": 0.0001}   # (60 % of the fractions first required: room for seed-to-seed variation)
